@@ -378,7 +378,7 @@ class TlsConn:
                 sh_ext += ext(0x0016, b"")
             for t, ln in sp["extra_exts"]:
                 sh_ext += ext(t, rbytes(rnd, ln))
-        sh_body = rv + self.sr + bytes([len(sid)]) + sid + struct.pack("!H", suite.code) + b"\x00"
+        sh_body = rv + self.sr + bytes([len(sid)]) + sid + struct.pack("!H", sp.get("sh_suite") or suite.code) + b"\x00"
         mode = sp["sh_ext"]
         if version == TLS13 or sh_ext or self.etm:
             mode = "block"
